@@ -119,6 +119,9 @@ class map:
         return s.failed
 
     def on_next(s, out, x):
+        if s.mapper is None:
+            out.on_next(x)  # no mapper: every element as it is
+            return
         try:
             y = s.mapper(x)
         except Exception as e:
@@ -132,7 +135,7 @@ class map:
         out = []
         for x in h:
             try:
-                out.append(mapper(x))
+                out.append(mapper(x) if mapper is not None else x)
             except Exception as e:
                 return out, ("error", e)
         return out, t
